@@ -633,8 +633,13 @@ clone_attr(struct attr_dict *dict, struct attr_data *dir,
 	if (!newattr)
 		return NULL;
 
-	if (attr_isset(orig) && !copy_data(newattr, orig))
+	if (attr_isset(orig) && !copy_data(newattr, orig)) {
+		/* The value was not copied: drop the half-made attribute. */
+		newattr->flags.isset = 0;
+		dir->dir = newattr->next;
+		dealloc_attr(newattr);
 		return NULL;
+	}
 
 	/* If this is a global attribute, update global_attrs[] */
 	if (newattr->template >= global_keys &&
@@ -667,6 +672,32 @@ clone_subtree(struct attr_dict *dict, struct attr_data *dir,
 	}
 
 	return true;
+}
+
+/** Forget cloned global attributes in a subtree.
+ * @param dict    Attribute dictionary.
+ * @param attr    Root of the subtree which is about to be deallocated.
+ *
+ * Make sure that global_attrs[] does not point to any attribute in
+ * the subtree. Entries are reset to the fallback dictionary's value.
+ */
+static void
+unclone_globals(struct attr_dict *dict, struct attr_data *attr)
+{
+	struct attr_data *child;
+
+	if (attr->template->type == KDUMP_DIRECTORY)
+		for (child = attr->dir; child; child = child->next)
+			unclone_globals(dict, child);
+
+	if (attr->template >= global_keys &&
+	    attr->template < &global_keys[NR_GLOBAL_ATTRS]) {
+		enum global_keyidx idx = attr->template - global_keys;
+		if (dict->global_attrs[idx] == attr)
+			dict->global_attrs[idx] = dict->fallback
+				? dict->fallback->global_attrs[idx]
+				: NULL;
+	}
 }
 
 /** Clone an attribute including full path.
@@ -722,10 +753,21 @@ clone_attr_path(struct attr_dict *dict, struct attr_data *orig)
 	return attr;
 
  err:
-	while (attr != base) {
-		struct attr_data *next = attr->parent;
+	if (attr != base) {
+		struct attr_data **pprev;
+
+		/* Find the topmost new attribute. Its descendants are
+		 * deallocated with it.
+		 */
+		while (attr->parent != base)
+			attr = attr->parent;
+		for (pprev = &base->dir; *pprev; pprev = &(*pprev)->next)
+			if (*pprev == attr) {
+				*pprev = attr->next;
+				break;
+			}
+		unclone_globals(dict, attr);
 		dealloc_attr(attr);
-		attr = next;
 	}
 	return NULL;
 }
